@@ -23,7 +23,7 @@ META = {
             "flowset is shorter than the template's record and the padding of a template flowset is at most 4 octets "
             "(RFC 3954: 0..3); the former hypotheses 'record longer than 4 octets' (finding K2) and '<= 4 padding octets' "
             "were forced by the decoder's constant `> 4`: under the second, 5..7 octets of padding after records of >= 8 "
-            "octets lost the whole packet (F16). Both are repaired in the code (fix aeca3ca) and gone from the theorems; "
+            "octets lost the whole packet (F16). Both are repaired in the code (fix 3c79378) and gone from the theorems; "
             "k2_repaired / k3_repaired evaluate the former counterexamples. Further: "
             "flowset length < 65536, non-empty flowsets, a template record has >= 1 field, the data flowset's template is "
             "what Cache.lookup returns on the cache as updated by the preceding flowsets. Nothing is partial. The model is "
